@@ -77,11 +77,11 @@ func Honest(r *mrand.Rand, o HonestOpts) *World {
 		w.Times[i] = Epoch
 	}
 	w.Resign()
-	w.MakeCRLs(unrelated(r, o.Revoked), unrelated(r, o.Revoked))
+	w.MakeCRLs(Unrelated(r, o.Revoked), Unrelated(r, o.Revoked))
 	return w
 }
 
-func unrelated(r *mrand.Rand, n int) []*big.Int {
+func Unrelated(r *mrand.Rand, n int) []*big.Int {
 	var out []*big.Int
 	for i := 0; i < n; i++ {
 		out = append(out, new(big.Int).Add(big.NewInt(1<<48), big.NewInt(r.Int63n(1<<40)))) // certificate serials are 19 random bytes
